@@ -47,6 +47,8 @@ struct LStream {
     ep_granted: i64,
     ungranted: u64,
     body_left: Option<u64>,
+    /// content-length the peer declared for its message on this stream
+    cl: Option<u64>,
 }
 
 struct Ledger {
@@ -176,7 +178,7 @@ impl Ledger {
                     if !self.local_init(sid) {
                         // a request opened by the peer (server role)
                         let iw = self.ep_iw_applied;
-                        self.streams.insert(sid, LStream { sid, by_peer: true, peer_head_sent: true, peer_open: !eos, ep_open: true, peer_win: iw, ..Default::default() });
+                        self.streams.insert(sid, LStream { sid, by_peer: true, peer_head_sent: true, peer_open: !eos, ep_open: true, peer_win: iw, cl: w["cl"].as_u64(), ..Default::default() });
                     } else {
                         self.tainted = true;
                     }
@@ -560,6 +562,17 @@ impl<'a> Closure<'a> {
         if self.d.ping_pong.is_some() && self.led.ping_outstanding {
             self.add_task(0, Kind::Pong);
         }
+        // a cooperating application does not sit on handles it is done with
+        for h in 0..nh {
+            let (recv_done, has_recv, has_fc, unreleased) = { let x = &self.d.handles[h]; (x.recv_done, x.recv.is_some(), x.recv_fc.is_some(), x.unreleased) };
+            if (has_recv && recv_done) || (!has_recv && has_fc) {
+                if unreleased > 0 {
+                    self.exec(json!({"op":"release","h":h,"n":unreleased}));
+                }
+                self.exec(json!({"op":"drop_recv","h":h}));
+                self.exec(json!({"op":"drop_fc","h":h}));
+            }
+        }
         // the application gives back reservations it does not need right now (a bare reserve_capacity, nothing else)
         for h in 0..nh {
             let open = { let x = &self.d.handles[h]; x.send.is_some() && !x.send_done };
@@ -574,7 +587,17 @@ impl<'a> Closure<'a> {
         for sid in sids {
             let n = if tiny || self.rng.chance(1, 3) { self.rng.range(0, 40) } else { self.rng.range(0, 5000) };
             let cap = 40 * (self.led.ep_iw_applied.max(1) as u64);
-            self.led.streams.get_mut(&sid).unwrap().body_left = Some(n.min(cap));
+            let (cl, sent) = { let s = &self.led.streams[&sid]; (s.cl, s.peer_sent) };
+            let left = match cl {
+                // a declared content-length is honoured exactly
+                Some(c) if c >= sent => c - sent,
+                Some(_) => {
+                    self.led.tainted = true;
+                    0
+                }
+                None => n.min(cap),
+            };
+            self.led.streams.get_mut(&sid).unwrap().body_left = Some(left);
         }
     }
 
@@ -941,6 +964,16 @@ impl<'a> Closure<'a> {
             let sid = self.d.handles[h].sid;
             let over = !conn_alive(self.d) || self.led.streams.get(&sid).map(|s| !s.peer_open || s.reset).unwrap_or(false);
             if !over {
+                continue;
+            }
+            // the application dropped the receive half of the parent early: h2 then ignores the rest of the peer's message on that
+            // stream, END_STREAM included (the `!is_recv` exit of Recv::recv_data, see KF-C03-1), so the stream layer never learns
+            // that no PUSH_PROMISE can come any more; not counted, the handle is simply dropped
+            let early_drop = { let x = &self.d.handles[h]; x.recv.is_none() && x.resp.is_none() && conn_alive(self.d) };
+            if early_drop {
+                self.tasks[ti].done = true;
+                self.exec(json!({"op":"drop_pushes","h":h}));
+                progressed = true;
                 continue;
             }
             self.violations.push(json!({"kind":"push-wait-not-woken","h":h,"sid":sid,"task_id":self.tasks[ti].id,"conn_alive":conn_alive(self.d),
